@@ -212,12 +212,13 @@ class ComputeZ(Contract):
 
 @contract(F + "::QuantileLinearRegression.fit", "C05")
 class Fit(Contract):
-    variants = [False, True]
+    variants = [(False, "real"), (True, "real"), (False, "int")]      # sample weights given or not; features stored as floats or as integers
     loop_kinds = {0: {"lastE": "real", "beta": ("nd", 1), "epsilon": ("nd", 1), "E": "real"}}
 
-    def setup(self, E, has_w):
+    def setup(self, E, v):
+        has_w, xkind = v
         n, d = E.size("n", 1), E.size("d", 1)
-        return dict(self=_self(E), X=E.nd("X", (n, d)), y=E.nd("y", (n,)), sample_weight=E.nd("w", (n,)) if has_w else None)
+        return dict(self=_self(E), X=E.nd("X", (n, d), xkind), y=E.nd("y", (n,)), sample_weight=E.nd("w", (n,)) if has_w else None)
 
     def requires(self, E, a):
         s = a.self.fields
@@ -257,8 +258,10 @@ class Fit(Contract):
             from pyvc.engine import Unbound
             if beta is not None and not isinstance(beta, Unbound):
                 out["beta_has_p_columns"] = z3.Implies(L.k > 0, z(beta.shape[0]) == z(L["Xm"].shape[1]))
-                out["next_weights_are_irls_weights_times_sample_weight"] = z3.Implies(L.k > 0, E.forall_range(
-                    [(0, n)], lambda r: L["W"].get(r) == Fit._W_spec(E, s, L["Xm"], beta, L["y"], sw, r)))
+                # the targets of the specification are the CALLER's targets (as given at entry, whatever the features' dtype is), not a local copy
+                y_in = E.ps["inputs"]["y"]
+                out["next_weights_are_irls_weights_of_the_callers_targets_times_sample_weight"] = z3.Implies(L.k > 0, E.forall_range(
+                    [(0, n)], lambda r: L["W"].get(r) == Fit._W_spec(E, s, L["Xm"], beta, y_in, sw, r)))
         return out
     loops = {0: _inv.__func__}
 
